@@ -1,7 +1,7 @@
 (* Skip-list case kind of the container engine (C19): extracted code-shaped model (run with
    several level choices, which must all agree) + extracted sorted-list specification.
-   ops:  i:K:P  x:K:P:S  f:K  fi la  nx:I pv:I v:I  fv lv len  c:I d:I  r:I:K  pf
-   (I = creation index of a node; S = allocation site 0..2 that fails)
+   ops:  i:K:P  !Si:K:P  f:K  fi la  nx:I pv:I v:I  fv lv len  c:I d:I  r:I:K  pf
+   (I = creation index of a node; !S = allocation request S = 0..2 of this insert is refused)
    After every mutating op the full forward and backward traversal and len are printed. *)
 open SListModel
 (*INCLUDE conv.inc*)
@@ -25,7 +25,9 @@ let parse op =
   try
     match split_on ':' op with
     | ["i"; k; p] -> PIns (i k, i p, -1)
-    | ["x"; k; p; s] -> PIns (i k, i p, i s)
+    | [s; k; p] when String.length s >= 3 && s.[0] = '!' && s.[String.length s - 1] = 'i' ->
+      let site = i (String.sub s 1 (String.length s - 2)) in
+      if site >= 0 && site <= 2 then PIns (i k, i p, site) else PBad
     | ["f"; k] -> POp (SlFind (z_of_int (i k), Z0), false)
     | ["fi"] -> POp (SlFirst, false)
     | ["la"] -> POp (SlLast, false)
